@@ -52,6 +52,7 @@ type c15Host struct {
 	Stash        bool     `json:"stash,omitempty"`
 	Notes        bool     `json:"notes,omitempty"`
 	SecondRemote bool     `json:"second_remote,omitempty"`
+	Linked       bool     `json:"linked,omitempty"` // a linked work tree (git worktree add); actions with cwd "@wt" run from there
 }
 
 type c15Input struct {
@@ -89,6 +90,7 @@ func c15GenSession(r *Rand, i int, maxActions int) c15Input {
 	in.Host.Stash = r.Chance(1, 3)
 	in.Host.Notes = r.Chance(1, 2)
 	in.Host.SecondRemote = r.Chance(1, 3)
+	in.Host.Linked = r.Chance(1, 4)
 	mode := []string{"cli", "lib", "mixed"}[r.Intn(3)]
 	via := func() string {
 		switch mode {
@@ -103,6 +105,9 @@ func c15GenSession(r *Rand, i int, maxActions int) c15Input {
 		return "lib"
 	}
 	cwd := func() string {
+		if in.Host.Linked && r.Chance(1, 2) {
+			return "@wt"
+		}
 		if r.Chance(1, 4) {
 			return "d"
 		}
@@ -233,6 +238,7 @@ type c15Session struct {
 	log     []map[string]interface{}
 	tags    map[string]bool
 	wrote   bool
+	cwd     string // of the action being run
 }
 
 func (s *c15Session) git(dir string, args ...string) (string, error) {
@@ -254,9 +260,20 @@ func (s *c15Session) mustGit(dir string, args ...string) string {
 	return out
 }
 
+// dirOf: where an action is run from: the work tree, one of its sub-directories, or the linked work tree
+func (s *c15Session) dirOf(cwd string) string {
+	if cwd == "@wt" {
+		if s.in.Host.Linked {
+			return filepath.Join(s.root, "wt")
+		}
+		return s.host
+	}
+	return filepath.Join(s.host, cwd)
+}
+
 func (s *c15Session) cli(cwd string, args ...string) (string, string, error) {
 	cmd := exec.Command(s.gb, args...)
-	cmd.Dir = filepath.Join(s.host, cwd)
+	cmd.Dir = s.dirOf(cwd)
 	cmd.Env = s.env
 	var out, errb bytes.Buffer
 	cmd.Stdout = &out
@@ -377,6 +394,12 @@ func (s *c15Session) setupHost() {
 	if s.in.Host.Stash {
 		c15Write(filepath.Join(h, "a.txt"), "alpha\nsecond\nstashed\n", 0o644)
 		s.mustGit(h, "stash", "-q")
+	}
+	if s.in.Host.Linked {
+		s.mustGit(h, "worktree", "add", "-q", filepath.Join(s.root, "wt"), "-b", "linked")
+		c15Write(filepath.Join(s.root, "wt", "a.txt"), "alpha\nsecond\ndirty in the linked work tree\n", 0o644)
+		c15Write(filepath.Join(s.root, "wt", "w.txt"), "staged in the linked work tree\n", 0o644)
+		s.mustGit(filepath.Join(s.root, "wt"), "add", "w.txt")
 	}
 	// hooks and other files of the git directory
 	c15Write(filepath.Join(s.gitdir, "hooks", "pre-commit"), "#!/bin/sh\nexit 1\n", 0o755)
@@ -528,6 +551,17 @@ func (s *c15Session) snapshot() c15Snap {
 		sn.Wt = append(sn.Wt, [2]string{rel, c15FileDigest(p, info)})
 		return nil
 	})
+	if s.in.Host.Linked {
+		wt := filepath.Join(s.root, "wt")
+		_ = filepath.Walk(wt, func(p string, info fs.FileInfo, err error) error {
+			if err != nil || info.IsDir() {
+				return nil
+			}
+			rel, _ := filepath.Rel(wt, p)
+			sn.Wt = append(sn.Wt, [2]string{"@wt/" + rel, c15FileDigest(p, info)})
+			return nil
+		})
+	}
 	_ = filepath.Walk(s.gitdir, func(p string, info fs.FileInfo, err error) error {
 		if err != nil {
 			return nil
@@ -583,7 +617,7 @@ func (s *c15Session) light() map[string]string {
 // ------------------------------------------------------------------ library side
 
 func (s *c15Session) open() repository.TestedRepo {
-	r, err := repository.OpenGoGitRepo(s.host, "git-bug", []repository.ClockLoader{bug.ClockLoader})
+	r, err := repository.OpenGoGitRepo(s.dirOf(s.cwd), "git-bug", []repository.ClockLoader{bug.ClockLoader})
 	if err != nil {
 		panic("harness: cannot open the host repository through go-git: " + err.Error())
 	}
@@ -702,7 +736,12 @@ var c15HexRe = regexp.MustCompile(`[0-9a-f]{7,64}`)
 // do runs one action and appends the model actions that describe what it may write.
 func (s *c15Session) do(a c15Action) {
 	s.counter++
+	s.cwd = a.Cwd
 	ev := map[string]interface{}{"k": a.K, "via": a.Via}
+	if a.Cwd != "" {
+		ev["cwd"] = a.Cwd
+		s.tags["cwd:"+a.Cwd] = true
+	}
 	defer func() { s.log = append(s.log, ev) }()
 	fail := func(err error, stderr string) {
 		if err != nil {
@@ -833,6 +872,8 @@ func (s *c15Session) do(a c15Action) {
 					return err
 				}
 				if err := b.Commit(repo); err != nil {
+					// the clocks were already advanced
+					s.coq = append(s.coq, fmt.Sprintf("AStorage [[%s]] []", coqRunes("clocks")))
 					return err
 				}
 				ev["id"] = string(b.Id())
